@@ -12,6 +12,7 @@ import os
 from ..common import hexs, unhexs
 from .. import common
 from .. import grogen as G
+from .. import groopen
 
 RULE = ("session: optional setters (title 0-80 printable chars, 35% of the valid sessions' titles with non-ASCII "
         "characters of 2/3/4 UTF-8 bytes (Latin-1 and beyond: e.g. 'lip\u00eddica', '\u00c5', '\u6c34'), sent to the model as the "
@@ -31,6 +32,11 @@ RULE = ("session: optional setters (title 0-80 printable chars, 35% of the valid
         "float() as the nearest double; reader scripts on written and hand-made files (seek_atom inside / at / past "
         "natoms / negative, readline parsed and raw, the four setters and wrong-shape boxes in read mode; empty file, "
         "negative count): result, tell() and _current_atom after every op, header attributes unchanged. "
+        "Opening (harness/groopen.py): open_coordinate_file on names with registered / unknown / odd extensions, by path "
+        "and by file object, with test parser classes registered through the metaclass (incl. overriding 'gro'); "
+        "GroFile(path, mode) for every mode string incl. the '+' modes, on existing and missing paths; GroFile(open file "
+        "object) in 'r' and other modes, partly consumed; writer sessions with the getters natoms / position_format / "
+        "comment / name and seek_atom in write mode in between. "
         "Non-trivial = every valid session (>= 1 record), every primitive case and every reader script on a file "
         "that opens; distinct by canonical hash.")
 
@@ -215,6 +221,9 @@ def generate(ctx):
     for i in range(ctx.n(1500, 20000)):
         op = G.gen_box(rng)
         yield {"kind": "prim", "what": "lattice", "box": op}
+    # ---- how a file is opened, getters, seek_atom in write mode (work package WPI; after everything else, so that
+    # the cases above stay what they were)
+    yield from groopen.generate(ctx)
 
 
 # ----------------------------------------------------------------------------- evaluation
@@ -697,6 +706,8 @@ def _eval_reader(ctx, case):
 
 
 def evaluate(ctx, case):
+    if case["kind"] == "open":
+        return groopen.evaluate(ctx, case)
     if case["kind"] == "reader":
         return _eval_reader(ctx, case)
     if case["kind"] == "session":
